@@ -376,7 +376,7 @@ def constructed(prog, sl, g, fields=FIELDS):
     """what the implicit-path fields of the `LayerEnv` returned by g are constructed with.
     -> (entries: [Entry], opaque: [(fld, value)] fields whose initial content could not be enumerated)"""
     where = '%s:%d' % (g.file, g.line)
-    ok = sl.mk_unwrap(sl.local(g, 0), 1)
+    ok, _bodies = reader_payload(prog, sl, g)       # (a thin public wrapper around a private body is transparent)
     entries, opaque = [], []
     for fld in fields:
         fv = normal(prog, sl, sl._field(ok, fld))
@@ -420,7 +420,7 @@ def _creation(v):
     return None
 
 
-def returned_into(prog, sl, g, ok, target, levels, fields=FIELDS):
+def returned_into(prog, sl, g, ok, target, levels, fields=FIELDS, bodies=None):
     """`fn from_rows(rows) -> LayerEnvDelta { let mut d = LayerEnvDelta::new(); for .. { d.insert(..) } d }` with
     `LayerEnv { layer_paths_build: from_rows(&[..]), .. }`: the insert acts on the object the helper creates, the helper
     returns that very object (its return value *is* the creation call, not an alternative of it), and the result of the
@@ -432,7 +432,7 @@ def returned_into(prog, sl, g, ok, target, levels, fields=FIELDS):
         if ident is None:
             return None
         name, (fpath, bb) = ident
-        if fpath == g.path:
+        if fpath == g.path or (bodies and fpath in bodies):
             for fld in fields:
                 if _creation(sl._field(ok, fld)) == ident:
                     # no other field / alternative is constructed with the same object
@@ -481,7 +481,13 @@ def target_fields(prog, sl, v, depth=0):
                     return None
                 out |= r
             return out or None
+        v = _decall(v)
         if v[0] == 'call' and v[1] in prog.fns:
+            # (one step first: an accessor `fn layer_paths_build_mut(&mut self) -> &mut LayerEnvDelta { &mut self.layer_paths_build }`
+            # hands out the field itself; `normal` would go on to what the field of a fresh LayerEnv is constructed with)
+            r1 = sl.inline_call(v)
+            if r1 is not None and r1 != v and strip(r1)[0] == 'field':
+                return {strip(r1)[2]}
             n = normal(prog, sl, v)
             if n == v:
                 return None
@@ -1522,3 +1528,155 @@ def writer_scopes(prog, sl, f, table, rows, le):
             if lb != scope:
                 table.setdefault(lb, None)
     return table, loose
+
+
+# ---- round 5: the same object / the same value under another spelling ------------------------------------------------
+def reader_payload(prog, sl, g):
+    """success payload of what g returns, private non-generic bodies behind a thin public wrapper transparent
+    (`pub fn read_from_layer_dir(p: impl AsRef<Path>) { Self::read_from_layer_path(p.as_ref()) }`), in g's terms.
+    -> (value, paths of the functions the value is built in)"""
+    ok = sl.mk_unwrap(sl.local(g, 0), 1)
+    bodies = {g.path}
+    for _ in range(4):
+        s = ok
+        while isinstance(s, tuple) and s and s[0] == 'unwrap':
+            s = s[1]
+        if not (isinstance(s, tuple) and s and s[0] == 'call' and s[1] in prog.fns and s[1] not in bodies):
+            break
+        h = prog.fns[s[1]]
+        if h.vis == 'pub' or h.kind == 'Closure':
+            break
+        r = sl.inline_call(s)
+        if r is None or r == s:
+            break
+        bodies.add(s[1])
+        ok = sl.mk_unwrap(r, 1)
+    return ok, bodies
+
+
+def _decall(v):
+    """a call through a function pointer whose pointee is known is a call of that function"""
+    if isinstance(v, tuple) and v and v[0] == 'icall' and len(v) == 4:
+        c = strip(v[1])
+        if c[0] == 'fnitem':
+            return ('call', c[1], tuple(v[2]), v[3])
+    return v
+
+
+def is_pointer_call(v):
+    """a call through a function pointer / callable value that is not known (yet: a column of a row table)"""
+    v = strip(v)
+    return v[0] == 'icall' and strip(v[1])[0] != 'fnitem'
+
+
+def same_object(prog, sl, v):
+    """the delta a target expression denotes, with calls that hand back one of their own arguments peeled
+    (`d.insert(a).insert(b)`: a private `insert` that returns `self` — the second insert acts on `d`) and calls through
+    a known function pointer turned into calls of the pointee.  Anything else is left as it is"""
+    for _ in range(8):
+        s = _decall(strip(v))
+        if s[0] != 'call' or s[1] not in prog.fns or prog.fns[s[1]].kind == 'Closure':
+            return s if s is not strip(v) else v
+        r = sl.inline_call(s)
+        if r is None or r == s:
+            return s
+        rs = canon(strip(r))
+        hit = [a for a in s[2] if canon(strip(a)) == rs]
+        if not hit:
+            return s
+        v = hit[0]
+    return v
+
+
+ARRAY_MAP = ('std::array::<impl [T; N]>::map',)
+
+
+def _index_of(p):
+    if isinstance(p, str) and p.startswith('[') and p.endswith(']') and p[1:-1].isdigit():
+        return int(p[1:-1])
+    return None
+
+
+def resolve_values(sl, v, _memo=None, depth=0):
+    """v with element projections of literal arrays resolved: `[a, b][1]` = b, `[a, b].map(f)[1]` = f(b)
+    (`let [x, y] = ["bin", "lib"].map(|n| dir.join(n))`), everywhere inside v"""
+    if not isinstance(v, tuple) or not v or depth > 40:
+        return v
+    if _memo is None:
+        _memo = {}
+        if not any(isinstance(x, tuple) and x and x[0] == 'index' for x in _walk(v)):
+            return v
+    k = id(v)
+    if k in _memo:
+        return _memo[k][1]
+    out = tuple(resolve_values(sl, x, _memo, depth + 1) if isinstance(x, tuple) else x for x in v)
+    if out[0] == 'index' and len(out) == 3:
+        i = _index_of(out[2])
+        b = strip(out[1])
+        if i is not None and b[0] == 'array' and i < len(b[1]):
+            out = b[1][i]
+        elif i is not None and b[0] == 'call' and (b[1] in ARRAY_MAP or (b[1].startswith('std::array::<impl [') and b[1].endswith('::map'))) \
+                and len(b[2]) == 2:
+            arr, clv = strip(b[2][0]), strip(b[2][1])
+            if arr[0] == 'array' and i < len(arr[1]) and clv[0] in ('closure', 'fnitem'):
+                r = sl.apply_closure(clv, (arr[1][i],))
+                if r is not None:
+                    out = resolve_values(sl, r, _memo, depth + 1)
+    if out == v:
+        out = v
+    _memo[k] = (v, out)      # (v kept alive so that its id stays unique)
+    return out
+
+
+def carried_over_only(prog, f, fld, le):
+    """every read of `.fld` in f is the carry-over of a functional update — `LayerEnv { all, build, ..old }` moves
+    old.fld into the *same* field of a new value of the same type — so the content stays where it was: in that field"""
+    from .lib.mir import _rvalue_places, op_place
+    proj = '.' + fld
+    n = 0
+    for b in f.blocks:
+        for s in b['s']:
+            if s[0] != '=':
+                continue
+            rv = s[2]
+            if rv['r'] == 'agg' and rv.get('kind') == 'adt' and rv.get('adt') == le and fld in rv.get('fields', []):
+                for name, op in zip(rv['fields'], rv['ops']):
+                    pl = op_place(op)
+                    if pl and proj in pl[1:]:
+                        if name != fld or [p for p in pl[1:] if p != '*'] != [proj]:
+                            return False
+                        n += 1
+                continue
+            for pl, how in _rvalue_places(rv):
+                if proj in pl[1:] and how != 'refmut':
+                    return False
+        t = b['t']
+        if t['t'] in ('call', 'tailcall'):
+            for a in t.get('args', []):
+                pl = op_place(a)
+                if pl and proj in pl[1:]:
+                    return False
+    return n > 0
+
+
+def value_mentions(prog, path):
+    """paths of the functions that mention the function `path` as a *value* (reified to a function pointer, stored in a
+    table, handed to another function) rather than calling it directly"""
+    import json
+    out = set()
+    needle = '"%s"' % path
+    for f in prog.fns.values():
+        hit = False
+        for b in f.blocks:
+            for s in b['s']:
+                if s[0] == '=' and needle in json.dumps(s[2]):
+                    hit = True
+                    break
+            t = b['t']
+            if not hit and t['t'] in ('call', 'tailcall') and any(needle in json.dumps(a) for a in t.get('args', [])):
+                hit = True
+            if hit:
+                break
+        if hit:
+            out.add(f.path)
+    return out
